@@ -36,17 +36,16 @@ ASSUMPTIONS = [
     'one module per node, requests are handled one at a time (Dispatcher._lock / accessLock not exercised), omit_unchanged_within = 0',
     'datatypes restricted to int, float, scaled, bool, enum, string, array, tuple, struct (no blob); payloads are JSON kinds; '
     'numbers offered to scaled types stay below 1e30 (representability guard of C01 validate_total)',
-    'a parameter has either <p>_limits or <p>_min/<p>_max, never both (C18/limits-tuple-shadows-min-max, not re-listed); limit '
-    'parameters only on int/float/scaled parameters',
+    'limit parameters (<p>_min, <p>_max, <p>_limits in every combination) only on int/float/scaled parameters',
     'check_<p> hooks and driver functions are user code: hooks are arbitrary functions of (value, cache) in the theorems and the '
     'three generated shapes in the correspondence; the driver follows a per-request script; neither touches the module otherwise',
     'export_value of a validated value does not fail (since fix 45926fd also for nested structs lacking optional members); the model '
-    'keeps the failing branch (store, then WrongType) and C04_error_clean carries it as explicit exception',
+    'keeps the failing branch (store, then WrongType) and C04_error_clean_except_unexportable carries it as explicit exception',
     'exported names are unique within the module (accessiblename2attr is a dict; the model takes the first match)',
 ]
 
 ERR_CLASSES = ['NoSuchModule', 'NoSuchParameter', 'NoSuchCommand', 'ReadOnly', 'WrongType', 'RangeError', 'HardwareError',
-               'InternalError']
+               'InternalError', 'ProtocolError']
 PREDEFINED = {'value': 'param', 'status': 'param', 'target': 'param', 'pollinterval': 'param', 'stop': 'cmd', 'go': 'cmd',
               'hold': 'cmd', 'shutdown': 'cmd', 'communicate': 'cmd', 'controlled_by': 'param', 'control_active': 'param'}
 
@@ -715,7 +714,7 @@ def oracle(case, obs):
             if cname is None:
                 want = ['NoSuchModule'] if r['mod'] != md['name'] else ['NoSuchCommand']
                 if r['acc'] is None:
-                    want = ['NoSuchModule', 'NoSuchCommand', 'ProtocolError']
+                    want = ['ProtocolError', 'NoSuchModule', 'NoSuchCommand']
                 _refused(fail, i, st, untouched, want, 'no such exported command')
                 before_t = after_t
                 continue
@@ -788,48 +787,10 @@ def _show(r):
     return f"{r['act']} {spec} {G.untag(r['data'])!r}"
 
 
-# ------------------------------------------------------------------ known finding classes (narrow)
-def f_do_without_accessible(case, obs, f):
-    if f['class'] != 'unfitting-error-class' or 'req' not in f:
-        return False
-    r, st = case['reqs'][f['req']], obs['steps'][f['req']]
-    return r['act'] == 'do' and r['acc'] is None and st['reply'] == 'InternalError' and not st['drv']
-
-
-def spec_exportable(d, v):
-    """every struct inside the value carries all members of its type (what export_value demands)"""
-    t = d['t']
-    if t == 'struct' and isinstance(v, dict):
-        m = dict(d['members'])
-        return all(n in v for n in m) and all(k in m and spec_exportable(m[k], x) for k, x in v.items())
-    if t == 'array' and isinstance(v, (list, tuple)):
-        return all(spec_exportable(d['elem'], x) for x in v)
-    if t == 'tuple' and isinstance(v, (list, tuple)):
-        return all(spec_exportable(dd, x) for dd, x in zip(d['elems'], v))
-    return True
-
-
-def f_unexportable_stored(case, obs, f):
-    """change answered WrongType although the value was stored: the stored value holds a nested struct that lacks an
-    optional member"""
-    if f['class'] not in ('failed-write-changed-cache', 'refusal-not-clean', 'valid-request-refused') or 'req' not in f:
-        return False
-    md = case['mod']
-    r, st = case['reqs'][f['req']], obs['steps'][f['req']]
-    if r['act'] != 'change' or st['reply'] != 'WrongType' or r['mod'] != md['name']:
-        return False
-    ename = r['acc'] if r['acc'] is not None else 'target'
-    for n, e, d, *_ in all_params(md):
-        if e == ename:
-            after = dict((k, t) for k, t in st['cache'])[n]
-            return not spec_exportable(d, _rebuild(d, after))
-    return False
-
-
-FINDING_CLASSIFIERS = {
-    'do-specifier-without-colon': f_do_without_accessible,
-    'nested-optional-struct-stored-then-error': f_unexportable_stored,
-}
+# ------------------------------------------------------------------ known finding classes
+# none open: do-specifier-without-colon (fixed 8821998), nested-optional-struct-stored-then-error (fixed 45926fd) and
+# command-argument-not-validated-value (fixed 1c127f9) are repaired; their corpus cases stay and must pass the oracle
+FINDING_CLASSIFIERS = {}
 
 
 # ------------------------------------------------------------------ bookkeeping
@@ -1029,8 +990,11 @@ def rand_module(rng, depth):
     for p in params:
         numeric = p['d']['t'] in ('int', 'float', 'scaled')
         if numeric and limits_module and rng.random() < 0.8:
-            if rng.random() < 0.3:
+            r = rng.random()
+            if r < 0.25:
                 kinds = ['limits']
+            elif r < 0.45:
+                kinds = rng.choice([['limits', 'min'], ['limits', 'max'], ['limits', 'min', 'max']])
             else:
                 kinds = rng.choice([['min'], ['max'], ['min', 'max'], ['min', 'max']])
             for k in kinds:
@@ -1176,7 +1140,7 @@ def exhaustive_cases():
     """small scope: one int parameter a in 0..10 with every subset of limit parameters / hook layouts, all payloads -1..11
     after every limit move"""
     d = {'t': 'int', 'min': 0, 'max': 10}
-    layouts = [[], ['min'], ['max'], ['min', 'max'], ['limits']]
+    layouts = [[], ['min'], ['max'], ['min', 'max'], ['limits'], ['limits', 'min'], ['limits', 'min', 'max']]
     hooksets = [[], [[0, ['always'], 'stop']], [[1, ['gt', 'b'], 'range']], [[0, ['never'], 'range'], [1, ['always'], 'stop']]]
     for lay in layouts:
         for hs in hooksets:
@@ -1194,6 +1158,8 @@ def exhaustive_cases():
                         moves += [[['_a_' + k, 4]], [['_a_' + k, 8]]]
                 if 'min' in lay and 'max' in lay:
                     moves.append([['_a_min', 8], ['_a_max', 4]])
+                if 'limits' in lay and 'min' in lay:
+                    moves.append([['_a_limits', [2, 9]], ['_a_min', 5]])
                 for mv in moves:
                     reqs = [{'act': 'change', 'mod': 'm', 'acc': acc, 'data': G.tag(v), 'drv': ['none']} for acc, v in mv]
                     reqs += [{'act': 'change', 'mod': 'm', 'acc': '_a', 'data': G.tag(v), 'drv': ['none']} for v in range(-1, 12)]
